@@ -49,6 +49,8 @@ def task_lemma():
     r = TaskResult("C09/lemma:empty-generation")
     for nm, ok, t in Q.empty_generation_lemma():
         r.obs.append(ObRec(f"C09/lemma:empty-generation/{nm}", "proved" if ok else "undecided", t, kind="lemma"))
+    for nm, ok, t in Q.enum_lemma():
+        r.obs.append(ObRec(f"C09/lemma:enum/{nm}", "proved" if ok else "undecided", t, kind="lemma"))
     r.assumptions.add("induction over the naturals is applied outside the solver (base case and step are the two obligations)")
     return r
 
@@ -322,6 +324,6 @@ def main(tier, seed):
         "queries: find_all_children (filter by a counting function), find_all_descendants (count and document-order rank of every matching "
         "descendant), find_single_node_by_path (chain of first children), get_ancestry (parent chain; terminates because parent links are acyclic: "
         "precondition, ghost depth) have exact contracts; the ghost counting/rank functions enter through their one-level unfoldings (T-unfold)",
-        "find_all_nodes_by_path is specified generation by generation (ghosts gen_len / gen_elem / gen_offset with one-level unfoldings); the lemma "
-        "'an empty generation stays empty' is proved by induction; L-enum (every position of a generation has a source position) is a counting "
-        "argument that is part of the ghosts' definition and is NOT machine-checked"])
+        "find_all_nodes_by_path is specified generation by generation (ghosts gen_len / gen_elem / gen_offset with one-level unfoldings); the lemmas "
+        "'an empty generation stays empty' and L-enum (every position of a generation has a source position) are proved by induction, base and "
+        "steps discharged by z3 as ground implications with explicit witnesses"])
